@@ -4,7 +4,7 @@ SPEC = {
     "lean_modules": ["SemaModel.C06.Props"],
     "lean_dirs": ["SemaModel/C06"],
     "harness": "c06",
-    "harness_args": {"quick": ["-n", 60, "-q", 25], "thorough": ["-n", 700, "-q", 30]},
+    "harness_args": {"quick": ["-n", 200, "-q", 25], "thorough": ["-n", 2500, "-q", 30]},
     "level": "proof",
     "tie": "T3: the hand-written model (searchParallel, back-fill, select via msgpack Query + nested rebuild, CompareAny / SortSearchResults, the offset/limit slice in both variants) is run by the Lean driver on the same requests as a real shard (bbolt file and memory backend alternate). The answers of the query-tree leaves (ids, _hybridScore bit patterns) and the stored documents are taken from the real shard; the driver merges, back-fills, selects, sorts and pages and must print exactly the rows the shard returns (ids in order, _hybridScore bits, decoded data). CompareAny, reflect.Kind numbers and float32 addition are also compared on scalar op lines. The documented behaviour is evaluated directly on every real answer by a Go oracle.",
     "required_theorems": [
